@@ -12,9 +12,10 @@ import os, re, subprocess, sys, json
 HERE = os.path.dirname(os.path.abspath(__file__))
 VERIF = os.path.dirname(HERE)
 REPO = "/repo"
-SCRATCH = "/tmp/geninput_scratch"
+SCRATCH = os.environ.get("GENINPUT_SCRATCH", "/tmp/geninput_scratch")
 SRC = os.path.join(SCRATCH, "libscpi", "src", "parser.c")
 MODS = {"result_c": "ScpiVerif.Props.C06Gen", "input_c": "ScpiVerif.Props.C01InputGen"}
+EXTRA_MODS = ["ScpiVerif.Props.C09InputGen"]      # further modules that rest on the generated SCPI_Input
 
 BREAKS2 = ("                if (context->parser_state.programHeader.type == SCPI_TOKEN_UNKNOWN\n"
            "                        && context->parser_state.termination == SCPI_MESSAGE_TERMINATION_NONE) break;\n"
@@ -102,7 +103,7 @@ def main():
                 failed = {k: v["failed"] for k, v in res.items() if v["failed"]}
             except Exception:
                 failed = {"all": tr.stdout[-200:] + tr.stderr[-200:]}
-            b = sh(["lake", "build"] + sorted(set(MODS.values())), cwd=os.path.join(VERIF, "lean"), env=env)
+            b = sh(["lake", "build"] + sorted(set(MODS.values())) + EXTRA_MODS, cwd=os.path.join(VERIF, "lean"), env=env)
             out = b.stdout + b.stderr
             bad = []
             for m in re.finditer(r"error: (ScpiVerif/[\w/]+\.lean):(\d+):\d+: (.*)", out):
